@@ -145,7 +145,7 @@ theorem tick_handles_purge (h ds : Nat) (sched : List Nat) (w : World)
   -- the message loop: wait, clean, purge
   have hkey : ∃ k, Event.purged h ds k ∈ (handleAll h (w2.hosts h).inbox.length r1.2 w2).1.log := by
     rw [hi2]
-    simp only [List.length_cons, List.length_nil, handleAll, hc2, Bool.false_eq_true, if_false, hi2]
+    simp only [List.length_cons, List.length_nil, handleAll, hc2, Bool.false_eq_true, if_false, hi2, purgeWait_eq]
     generalize hra : waitAll h (w2.hosts h).futs.length r1.2 w2 = ra
     have hwa := waitAll_io h (w2.hosts h).futs.length r1.2 w2 h
     rw [hra] at hwa
